@@ -1041,9 +1041,11 @@ def spawned_late_child():
 def recur_then_other(rmax=4):
     """a handler re-dispatches its own event type (fire-and-forget) down to a solver-chosen depth; beyond depth 2 the library's
     recursion guard refuses the event (finding F2).  Another event accepted meanwhile, queued behind, must still be processed."""
-    handlers = [['A', 'R', 'hR', [['disp', 'A', 'L', 'La_{inv}'], ['recur', 'A', 'r', 'ff'], ['ret', 'r']]], ['A', 'L', 'hL', [['sleep', 'd'], ['ret', 'l']]]]
+    handlers = [['A', 'R', 'hR', [['disp', 'A', 'L', 'La_{inv}'], ['recur', 'A', 'r', 'ff'], ['disp', 'A', 'L', 'Lb_{inv}'], ['ret', 'r']]],
+                ['A', 'L', 'hL', [['sleep', 'd'], ['ret', 'l']]]]
     main = [['root', 'A', 'R', 'R0'], ['root', 'A', 'L', 'L1'], ['sleep', '2'], ['obs_all', 'end']]
-    return dict(buses=['A'], reals={'d': ['0', '1/5']}, ints={'r': [0, rmax]}, handlers=handlers, main=main, horizon=7)
+    # (the refused recursion level itself stays pending: that is F2, reported by C03/C15; this scenario is about the *other* events)
+    return dict(buses=['A'], reals={'d': ['0', '1/5']}, ints={'r': [0, rmax]}, handlers=handlers, main=main, horizon=7, c14_not_about=['R'])
 
 
 def loop_died_with_backlog():
